@@ -18,7 +18,8 @@ def gen_cfg(quick):
         decs = [0, 1, 6, 8, 9, 17, 18]
         small = (3, 3)
     else:
-        il = list(range(0, 79))
+        # every length up to 22, every third above, and the neighbourhoods of 39/58/78 digits
+        il = sorted(set(range(0, 23)) | set(range(25, 79, 3)) | {38, 39, 40, 57, 58, 59, 60, 76, 77, 78})
         fl = list(range(0, 19))
         nl = list(range(1, 79))
         decs = list(range(0, 19))
